@@ -862,6 +862,9 @@ void sim_answer_query(struct sim *s, uint8_t qtype, uint8_t qver, uint16_t qsess
 				else
 					pl.defect = rndp(&s->rng, 1, 2) ? D_DUP_ANNOUNCE : D_BAD_FLAGS;
 				break;
+			case 7:
+				pl.override = AO_CLOSE; /* takes the query and hangs up without a byte */
+				break;
 			default:
 				break;
 			}
